@@ -175,7 +175,7 @@ _DT_CACHE = {}
 
 
 def digest_table(s, root):
-    key = id(s)
+    key = (root, id(s))         # id() alone is reused once an earlier scenario has been collected
     if key in _DT_CACHE:
         return _DT_CACHE[key]
     _DT_CACHE.clear()
@@ -202,6 +202,20 @@ def digest_table(s, root):
     return rev
 
 
+def _link_through_nondir(root):
+    for dp, dn, fn in os.walk(root):
+        for n in dn + fn:
+            p = os.path.join(dp, n)
+            if os.path.islink(p):
+                try:
+                    os.stat(p)
+                except NotADirectoryError:
+                    return True
+                except OSError:
+                    pass
+    return False
+
+
 def one_scenario(args):
     """Worker: (seed, index, tier) -> list of records"""
     seed, idx, opts = args
@@ -215,6 +229,10 @@ def one_scenario(args):
             m = gen.mutate(rng, L, root)
             if m:
                 muts.append(m)
+        if _link_through_nondir(root):
+            # a symlink whose target path runs through something that is no directory (any more): opening
+            # it gives ENOTDIR, not ENOENT - neither "dangling" nor "other" in the projection's terms
+            return []
         namer = fm.Namer()
         s = fm.project(root, 'Manifest', namer=namer)
         dirs = [d for d in L.dirs if os.path.isdir(os.path.join(root, d))
@@ -388,6 +406,31 @@ def same_loader_steps(root, s, namer, paths, meta=None):
     return recs
 
 
+def update_then_lookup_steps(root, s, namer, other, paths, meta=None):
+    from . import gem
+    recs = []
+    top = os.path.join(root, 'Manifest')
+    obs, ld = gem.call(gem.loader, top, hashes=['BLAKE2S'])
+    if obs['end'] != 'ok':
+        return recs
+    obs, _ = gem.call(ld.update_entry_for_path, other)
+    if obs['end'] != 'ok':
+        return recs            # the chain above `other` is itself broken: judged by the other steps
+    for path in paths:
+        for api in ('find_path_entry', 'verify_path', 'assert_path_verifies'):
+            obs, r = gem.call(getattr(ld, api), path)
+            ret, res = True, []
+            if obs['end'] == 'ok':
+                if api == 'find_path_entry':
+                    res = lookup_entry(ld, r, path, namer, s, root)
+                elif api == 'verify_path':
+                    ret = bool(r[0])
+            ev = {'a': 'lookup', 'api': api, 'sub': namer.path(path), 'name': '', 'last': -1, 'keep': False,
+                  'end': obs['end'], 'exc': obs['exc'], 'ret': ret, 'reported': [], 'res': res}
+            recs.append({'s': s, 'ev': ev, 'meta': dict(meta or {}, same_loader='after_update', updated=other)})
+    return recs
+
+
 def one_tamper(args):
     seed, idx, opts = args
     rng = random.Random('tamper-%d-%d' % (seed, idx))
@@ -501,6 +544,16 @@ def one_tamper(args):
         recs += lookup_steps(root, s, namer, rng, paths, meta=meta)
         # the same questions on ONE loader after a whole-tree verification (which may have failed)
         recs += same_loader_steps(root, s, namer, paths, meta=meta)
+        # ... and after an UNSAVED single-path update on that loader which marks the Manifest just above the
+        # first recomputed one as modified (another hash set for a file it lists): what is loaded later
+        # must still be checked against the entries of that Manifest
+        if kind != 'none' and target is not None and k >= 1:
+            others = [p for p in sorted(L.files) if os.path.dirname(p) == dirs[k - 1] and p != target
+                      and os.path.isfile(os.path.join(root, p))]
+            if others:
+                oth = rng.choice(others)
+                # (the updated file itself is answered from the loader's unsaved state: not asked)
+                recs += update_then_lookup_steps(root, s, namer, oth, [p for p in paths if p != oth], meta=meta)
         for lvl in sorted(set([j, rng.randrange(0, depth + 1)])):
             for name in ('dist-%d.tar' % j, 'evil.tar', 'dist-0.tar'):
                 recs.append(dist_step(root, s, namer, dirs[lvl], name, meta=meta))
